@@ -3,17 +3,17 @@ GO_CMD = "pkgs"
 GEN = ["Gen/GenPkg.v"]
 GROUPS = "core,b1,b2"      # generator groups whose models are integrated in Pkg/All.v
 DRIVE_ARGS = ["-prop", "C07", "-groups", GROUPS]
-MODEL_VO = ["theories/Pkg/All.vo"]
+MODEL_VO = ["theories/Rx/Spec.vo"]
 PROOF_VO = ["theories/C07/Props.vo"]
 PROPS_V = "theories/C07/Props.v"
-EXTRACT = "extract/Pkg.v"
-DEPS = ["Pkg"]
+EXTRACT = "extract/Rx.v"
+DEPS = ["Pkg", "Rx"]
 DESIGN_REF = "DESIGN.md section 5, C07"
 TECHNIQUE = "Coq proof that every package decoder is 'streamable' (by closure of the parser combinators) + exhaustive-prefix correspondence with every ReadFrom of the implementation"
 RULE = ("for every valid encoding generated for the package layer (all registered kinds; formats over all data types; params/rows over all decodable data types "
         "and all valid data lengths, with and without status byte; optional parts; boundary string lengths) EVERY proper prefix (length 0..len-1) is fed to the implementation's "
         "LookupPackage+LastPkg+ReadFrom on a bounded queue; the list of result classes is compared with the model's and must be all 'not enough bytes'. "
-        "One case = one encoding with all its prefixes; non-trivial = encoding longer than 2 bytes; distinct by (token, bytes, context).")
+        "One case = one encoding with all its prefixes; non-trivial = encoding longer than 2 bytes; distinct by (token, bytes, context). Channel level: multi-round histories and many-cut / fixed-size packetisations of whole responses are fed to the real Channel.WritePacket; no parse error may surface for a merely fragmented response and the events must equal the model's (whose independence of the fragmentation is C02's theorem).")
 TRUSTED = ["Coq 8.16.1 kernel + vm_compute", "hand-written decoders in coq/theories/Pkg (tied by this correspondence and by C06/C10's)",
            "data-type tables re-tabulated from the code (Gen/GenPkg.v)", "harness/pk (reference encoders), tds/verif_hooks.go, ocaml/driver.ml, extraction (ExtrOcamlBasic)"]
 ASSUMPTIONS = ["BLOB (serialised Java object) field data is not modelled (never generated)",
@@ -24,3 +24,7 @@ LEVEL_TEXT = ("Theorems C07_truncated_is_not_enough_bytes / C07_error_only_when_
 LEVEL_NOTE = "Trusted: Coq kernel; the hand-written decoders (validated against the implementation on every prefix of every generated encoding); Go harness; extraction + OCaml driver."
 def nontrivial(c):
     return len(c[1]) > 16
+
+from props._multi import drive_multi
+def drive(check, exe_go, race_exe, tier, seed, path, env):
+    return drive_multi(check, [("pkgs", DRIVE_ARGS), ("rx", ["-prop", ID])], tier, path, env)
